@@ -154,7 +154,7 @@ def generate(rng, *, n_inputs=None, n_statements=None, rows=None, viral=None, ti
         name = rng.choice(["R_%d", "R_%d", "R_%d", "Out_%d", "tmp_%d"]) % (i + 1)
         r = rng.random()
         if group_focus and rng.random() < 0.5:
-            r = rng.choice([0.56, 0.58, 0.6, 0.65, 0.905])   # aggregations / analytic over groups
+            r = rng.choice([0.56, 0.58, 0.6, 0.65, 0.905, 0.91, 0.92])   # aggregations / analytic over groups
         a = pick("S")
         b = pick("S", exclude=() if rng.random() < 0.15 else (a,)) or a
         const = rng.choice([1, 2, 3, 5, 10])
@@ -226,8 +226,19 @@ def generate(rng, *, n_inputs=None, n_statements=None, rows=None, viral=None, ti
             expr = "udo_add(%s, %s)" % (a, b)
             reads = [a, b]
         elif r < 0.93 and allow_analytic and full_order:
-            fn = rng.choice(["sum", "max", "min", "count", "first_value", "last_value"])
-            expr = "%s(%s over (partition by Id_1 order by %s))" % (fn, a, full_order)
+            fn = rng.choice(["sum", "max", "min", "count", "avg", "first_value", "last_value", "first_value", "last_value", "lag", "lead"])
+            # total ordering on the operand's key: partition by Id_1, order by every other identifier, any direction
+            order = ", ".join("%s%s" % (c, rng.choice(["", "", " asc", " desc"])) for c in ids[1:])
+            window = rng.choice(["", "", " data points between unbounded preceding and unbounded following",
+                                 " data points between 1 preceding and 1 following",
+                                 " data points between unbounded preceding and current data point",
+                                 " data points between current data point and unbounded following",
+                                 " data points between 2 preceding and current data point",
+                                 " data points between 1 following and 2 following"])
+            if fn in ("lag", "lead"):
+                expr = "%s(%s, %d over (partition by Id_1 order by %s))" % (fn, a, rng.choice([1, 1, 2]), order)
+            else:
+                expr = "%s(%s over (partition by Id_1 order by %s%s))" % (fn, a, order, window)
             reads = [a]
             shape = "S" if fn not in ("count",) else "X"
         elif r < 0.96 and allow_dpr:
